@@ -84,8 +84,9 @@ def build_hosted(rng, *, capacity: int, grain: int, ngte: int = 512, states=None
                  tag: int = 1, kind: int = 0, version: int = 1, zero_gte: bool = True, redundant: bool = False,
                  descriptor: str | None = None, align_grains: bool = True, tables_after_data: bool = False,
                  empty_tables: bool = True, far_sector: int = 0, desc_exact: bool = False, gd_in_footer: bool = False,
-                 gd_last: bool = False, redundant_override=None):
-    """Plain (non-compressed) hosted sparse extent. states per grain: A / U / Z."""
+                 gd_last: bool = False, redundant_override=None, gd_at: int = 0):
+    """Plain (non-compressed) hosted sparse extent. states per grain: A / U / Z.
+    gd_at: absolute sector of the grain directory (the caller knows it to be free), e.g. one whose low 32 bits are all ones."""
     if redundant_override is not None:
         redundant = redundant_override
     ngrains = -(-capacity // grain)
@@ -125,7 +126,9 @@ def build_hosted(rng, *, capacity: int, grain: int, ngte: int = 512, states=None
                 if gts[t]:
                     layout["rgt"][t] = c
                     c += gt_sectors
-        if not gd_last:
+        if gd_at:
+            layout["gd"] = gd_at
+        elif not gd_last:
             layout["gd"] = c
             c += gd_sectors
         layout["gt"] = {}
@@ -133,7 +136,7 @@ def build_hosted(rng, *, capacity: int, grain: int, ngte: int = 512, states=None
         for t in torder:
             layout["gt"][t] = c
             c += gt_sectors
-        if gd_last:
+        if gd_last and not gd_at:
             # the directory closes the file
             layout["gd"] = c
             c += gd_sectors
